@@ -46,7 +46,7 @@ def sweep(rec, ctx, rng, exhaustive):
     if exhaustive:
         combos = [c for i, c in enumerate(combos) if i % ctx.nshards == ctx.shard]
     else:
-        combos = [(rng.randint(0, 20), rng.randint(0, 12), rng.randint(0, 24)) for _ in range(6)]
+        combos = [(rng.randint(0, 20), rng.choice([rng.randint(0, 12), rng.randint(13, 40)]), rng.randint(0, 45)) for _ in range(6)]
     for p, g, d in combos:
         # Fixed (guard unused)
         if g == 0 or not exhaustive:
